@@ -5,7 +5,7 @@
    working tree.  What ties the model to the code is the correspondence of harness/props/C20.py. *)
 From Coq Require Import List ZArith Bool.
 From PV Require Import lib.Sx lib.Str lib.Result model.Generated model.Detect spec.SpecDetect spec.SpecOwn
-  proofs.DetectFacts proofs.DetectOwnFacts model.OwnWrite spec.SpecOwnNodes proofs.DetectNodeFacts proofs.DetectVttFacts.
+  proofs.DetectFacts proofs.DetectOwnFacts model.OwnWrite spec.SpecOwnNodes proofs.DetectNodeFacts proofs.DetectVttFacts model.SccWrite model.OwnWriteScc proofs.OwnSccFacts model.TimeRead proofs.OwnReadFacts.
 Import ListNotations.
 Open Scope Z_scope.
 
@@ -95,6 +95,36 @@ Print Assumptions C20_own_nodes_mdvd.
 Theorem C20_own_nodes_vtt : forall langs, detect_format (vtt_write langs) = Ok (Some R_VTT).
 Proof. exact own_nodes_vtt. Qed.
 Print Assumptions C20_own_nodes_vtt.
+
+(* SCC from the text nodes: the caption text (OwnWrite.cap_text = "".join(get_text_nodes())) of the first language goes
+   through the SCC builders' writer model model/SccWrite.v (wrapping, rows, address codes, character codes, pre-roll,
+   timecodes).  Whenever that writer returns a document (it raises IndexError beyond 32 rows) the document is detected
+   as SCC: every character behind the header is a hex digit, ':', ';', TAB, blank, newline, 'x' or '-' (table facts over
+   the complete regenerated tables).  No hypothesis on text or times. *)
+Theorem C20_own_nodes_scc : forall langs doc, scc_write langs = Ok doc -> detect_format doc = Ok (Some R_SCC).
+Proof. exact own_nodes_scc. Qed.
+Print Assumptions C20_own_nodes_scc.
+Theorem C20_scc_writer_body_chars : forall caps doc, write caps = Ok doc ->
+  exists body, doc = scc_document body /\ forallb sccp body = true.
+Proof. exact write_shape. Qed.
+Print Assumptions C20_scc_writer_body_chars.
+
+(* ---------------- "and that reader reads the document" (wave 7, round 3) ---------------- *)
+(* MicroDVD: on the domain that excludes exactly the two recorded findings of the format (a cue inside frame 0; a cue
+   whose text has nothing besides blanks and '|') the reader model of C01 (model/TimeRead.v mdvd_read, used read-only)
+   reads the writer model's document and returns ONE caption per written cue, in order, with the instants of the
+   written frames at 25 fps and the cue's text pieces. *)
+Theorem C20_own_read_mdvd : forall langs, mdvd_read_dom langs = true ->
+  mdvd_read (mdvd_write langs) = Ok (map mdvd_expected_cap (concat langs)).
+Proof. exact own_read_mdvd. Qed.
+Print Assumptions C20_own_read_mdvd.
+Theorem C20_own_detect_and_read_mdvd : forall langs, mdvd_dom langs = true -> mdvd_read_dom langs = true ->
+  detect_format (mdvd_write langs) = Ok (Some R_MDVD) /\
+  exists caps, mdvd_read (mdvd_write langs) = Ok caps /\ length caps = length (concat langs) /\
+               map (fun r => (fst (fst r), snd (fst r))) caps
+               = map (fun c => (mdvd_frame (oc_start c) * 40000, mdvd_frame (oc_end c) * 40000)) (concat langs).
+Proof. exact own_detect_and_read_mdvd. Qed.
+Print Assumptions C20_own_detect_and_read_mdvd.
 
 (* DFXP / SAMI (documents produced by bs4, not modelled): what detection needs of their skeleton.  A document that
    contains the root element's closing tag is DFXP whatever else it contains; a document that opens with the <sami root
@@ -242,4 +272,28 @@ Example C20_example_skeletons :
   detect_format (dfxp_document (lit "<tt><body>WEBVTT {1}{2}</body>") [10]) = Ok (Some R_DFXP) /\
   free before_sami (sami_document (lit "><body>{1}{2} --></body></sami>")) = true /\
   detect_format (sami_document (lit "><body>{1}{2} --></body></sami>")) = Ok (Some R_SAMI).
+Proof. vm_compute. repeat split. Qed.
+
+(* SCC from the nodes: text made of the other formats' markers *)
+Example C20_example_own_nodes_scc :
+  let langs := [[mk_ocap 2000000 4000000 [OText (lit "</tt> WEBVTT"); OBreak; OText (lit "<sami {1}{2} -->")]]] in
+  match scc_write langs with
+  | Ok doc => detect_format doc = Ok (Some R_SCC) /\ is_prefix (lit "Scenarist_SCC V1.0") doc = true
+  | Err _ => False
+  end.
+Proof. vm_compute. split; reflexivity. Qed.
+
+(* reading back: the hypotheses are satisfiable, and each one is needed - the witnesses of the recorded findings lie
+   outside the domain and violate the conclusion (frame-0 cue: the reader takes the line for the frame-rate header and
+   fails on the rate; '|'-only cue: no captions; SRT with an empty first language: not even detected) *)
+Example C20_example_read_mdvd :
+  let ok := [[mk_ocap 1000000 2000000 [OText (lit "a|b"); OBreak; OText (lit "c")]]; [mk_ocap 0 40000 [OText (lit "x")]]] in
+  mdvd_read_dom ok = true /\
+  mdvd_read (mdvd_write ok) = Ok [(1000000, 2000000, [lit "a"; lit "b"; lit "c"]); (0, 40000, [lit "x"])] /\
+  let f0 := [[mk_ocap 0 30000 [OText (lit "hello")]]] in
+  mdvd_read_dom f0 = false /\ mdvd_dom f0 = true /\ mdvd_read (mdvd_write f0) = Err ETiming /\
+  let bar := [[mk_ocap 423940689 424940688 [OText (lit "|")]]] in
+  mdvd_read_dom bar = false /\ mdvd_dom bar = true /\ mdvd_read (mdvd_write bar) = Err ENoCaptions /\
+  let e1 := [[]; [mk_ocap 1000000 2000000 [OText (lit "x")]]] in
+  srt_read_dom e1 = false /\ srt_dom e1 = false /\ detect_format (srt_write e1) = Ok None.
 Proof. vm_compute. repeat split. Qed.
